@@ -59,11 +59,15 @@ func makeIterSource(kind string, vals []int) *iterSource {
 		src.iter = func() iterHandle { return wrapInt(c.GetIterator(), ints(c.AsArray())) }
 		src.mutate = func(r Rng) {
 			if c.GetSize() > 0 {
-				switch r.Intn(3) {
+				switch r.Intn(5) {
 				case 0:
 					c.SetValue(1+r.Intn(c.GetSize()), 70+r.Intn(9))
 				case 1:
 					c.ReverseValues()
+				case 2:
+					c.SetValues(1+r.Intn(c.GetSize()), col.Array[int](notation).MakeFromArray([]int{60 + r.Intn(9)}))
+				case 3:
+					c.ShuffleValues()
 				default:
 					c.SortValues()
 				}
@@ -73,7 +77,13 @@ func makeIterSource(kind string, vals []int) *iterSource {
 		c := col.List[int](notation).MakeFromArray(vals)
 		src.iter = func() iterHandle { return wrapInt(c.GetIterator(), ints(c.AsArray())) }
 		src.mutate = func(r Rng) {
-			switch r.Intn(6) {
+			switch r.Intn(8) {
+			case 6:
+				if c.GetSize() > 0 {
+					c.SetValues(1+r.Intn(c.GetSize()), col.Array[int](notation).MakeFromArray([]int{60 + r.Intn(9)}))
+				}
+			case 7:
+				c.ShuffleValues()
 			case 0:
 				c.AppendValue(70 + r.Intn(9))
 			case 1:
@@ -146,14 +156,15 @@ func makeIterSource(kind string, vals []int) *iterSource {
 			c.SetValue(i+1, v)
 		}
 		src.iter = func() iterHandle {
+			truth := assocIDs(c.AsArray()) // what the Map holds now
 			it := c.GetIterator()
-			// a Go map has no defined order: the snapshot is what this iterator enumerates first
-			var snap []int
-			for it.HasNext() {
-				snap = append(snap, assocID(it.GetNext()))
-			}
-			it.ToStart()
-			return wrapAssoc(it, ints(snap))
+			return wrapAssoc(it, mapSnapshot(truth, func() (int, bool) {
+				if !it.HasNext() {
+					it.ToStart()
+					return 0, false
+				}
+				return assocID(it.GetNext()), true
+			}))
 		}
 		src.mutate = func(r Rng) {
 			if r.Intn(2) == 0 {
@@ -162,11 +173,97 @@ func makeIterSource(kind string, vals []int) *iterSource {
 				c.RemoveValue(1 + r.Intn(len(vals)+2))
 			}
 		}
+	case "mapnan":
+		// float keys, one of them NaN (a key that is not equal to itself: it can be stored and enumerated, never looked up)
+		c := col.Map[float64, int](notation).Make()
+		for i, v := range vals {
+			k := float64(i) + 0.5
+			if i%3 == 1 {
+				k = math.NaN()
+			}
+			c.SetValue(k, v)
+		}
+		fid := func(a col.AssociationLike[float64, int]) int {
+			if a == nil {
+				return 0 // the zero value an iterator hands out at its ends
+			}
+			k := a.GetKey()
+			if k != k {
+				return 99000 + a.GetValue()
+			}
+			return int(k*2)*1000 + a.GetValue()
+		}
+		fids := func(as []col.AssociationLike[float64, int]) []int {
+			out := make([]int, len(as))
+			for i, a := range as {
+				out[i] = fid(a)
+			}
+			return out
+		}
+		src.iter = func() iterHandle {
+			truth := fids(c.AsArray())
+			it := c.GetIterator()
+			snap := mapSnapshot(truth, func() (int, bool) {
+				if !it.HasNext() {
+					it.ToStart()
+					return 0, false
+				}
+				return fid(it.GetNext()), true
+			})
+			return iterHandle{func() int { return fid(it.GetNext()) }, func() int { return fid(it.GetPrevious()) },
+				it.HasNext, it.HasPrevious, it.ToStart, it.ToEnd, it.ToSlot, it.GetSlot, it.GetSize, it.IsEmpty, snap}
+		}
+		src.mutate = func(r Rng) {
+			if r.Intn(2) == 0 {
+				c.SetValue(float64(r.Intn(len(vals)+2))+0.5, 70+r.Intn(9))
+			} else {
+				c.RemoveValue(float64(r.Intn(len(vals)+2)) + 0.5)
+			}
+		}
 	}
 	return src
 }
 
-var iterKinds = []string{"array", "list", "set", "stack", "queue", "catalog", "map"}
+// mapSnapshot: a Go map has no defined order, so the snapshot takes its ORDER from the iterator's first pass but its
+// CONTENTS from what the Map held (AsArray): a value the iterator makes up takes the place of the one it should have shown
+func mapSnapshot(truth []int, next func() (int, bool)) []int {
+	left := append([]int{}, truth...)
+	var snap []int
+	var made []int
+	for {
+		v, ok := next()
+		if !ok {
+			break
+		}
+		found := false
+		for i, t := range left {
+			if t == v {
+				left = append(left[:i], left[i+1:]...)
+				found = true
+				break
+			}
+		}
+		if found {
+			snap = append(snap, v)
+		} else {
+			made = append(made, len(snap))
+			snap = append(snap, -1) // patched below
+		}
+	}
+	for _, pos := range made {
+		if len(left) > 0 {
+			snap[pos] = left[0]
+			left = left[1:]
+		}
+	}
+	out := append(snap, left...)
+	if out == nil {
+		out = []int{}
+	}
+	return out
+}
+
+var iterKinds = []string{"array", "list", "set", "stack", "queue", "catalog", "map", "mapnan"}
 var iterOps = []string{"getNext", "getPrevious", "hasNext", "hasPrevious", "toStart", "toEnd", "toSlot", "getSlot", "getSize", "isEmpty"}
 
 type iterMove struct {
